@@ -1,20 +1,24 @@
 """C15 - shards partition the dataset. Bounded-exhaustive over (n, k, i), list- and dict-backed."""
 import numpy as np
+from hypothesis import strategies as st
 
-from ..common import Outcome, Violation
+from .. import gen, observe, progcheck, progs
+from ..common import Outcome, Violation, drive, seed
+from ..refmodel import ev
 
 PID = 'C15'
 LEVEL = 'exploration'
 RULE = ('exhaustive enumeration of (n, k, backing) with 0<=n<=N, every k in [-1, n+2], every shard index i (and the '
         'negative / out-of-range ones for shard()); split(k) and shard(k, i) of list- and dict-backed datasets plus '
-        'derived datasets (mapped, sliced, concatenated) as the thing being split. Oracle: arithmetic partition '
+        'derived datasets (mapped, sliced, concatenated) as the thing being split; plus Hypothesis-generated indexable '
+        'pipelines (C01 alphabet) split for every k against the reference value list. Oracle: arithmetic partition '
         'predicate over self-describing examples. Non-trivial = k>=2 and n mod k != 0; distinct by (n, k, backing).')
 ASSUMPTIONS = [
     'examples are self-describing tuples, so provenance (loss, duplication, order) is decidable from values alone',
     'a shard count outside 1..n must raise an Exception (the code raises ValueError); n=0 therefore rejects every k',
 ]
 
-N = {'quick': 120, 'thorough': 300}
+N = {'quick': 80, 'thorough': 300}
 
 
 def plan(tier):
@@ -104,7 +108,57 @@ def run_case(case):
 
 
 def replay(case):
-    run_case(case)
+    if 'ast' in case:
+        progcheck.setup_process()
+        check_pipeline(case)
+    else:
+        run_case(case)
+
+
+N_RANDOM = {'quick': 150, 'thorough': 1500}
+
+
+def check_pipeline(case):
+    """Split an arbitrary generated indexable pipeline: every k in [-1, n+2], oracle = the reference value list."""
+    node = case['ast']
+    m = ev(node)
+    ds, _ = progcheck.build_checked(node)
+    desc = f'program: {progs.show(node)}'
+    n = m.n
+    for k in range(-1, n + 3):
+        valid = 1 <= k <= n
+        try:
+            shards = ds.split(k)
+        except Exception as e:
+            if valid:
+                raise Violation('split-raises|pipeline', f'{desc} k={k}: {observe.describe_exc(e)}')
+            continue
+        if not valid:
+            raise Violation('invalid-count-accepted|pipeline', f'{desc} k={k} with n={n}')
+        lists = [list(s) for s in shards]
+        flat = [e for x in lists for e in x]
+        if len(shards) != k or not observe.same_list(flat, m.vals):
+            raise Violation('not-a-partition|pipeline', f'{desc} k={k}: shards {lists}\nexpected a partition of {m.vals}')
+        sizes = [len(x) for x in lists]
+        if max(sizes) - min(sizes) > 1:
+            raise Violation('unbalanced|pipeline', f'{desc} k={k}: sizes {sizes}')
+        if m.cap_keys == 'req' and not m.taint:
+            kflat = [kk for s in shards for kk in s.keys()]
+            if kflat != list(m.keys):
+                raise Violation('keys-partition|pipeline', f'{desc} k={k}: keys {kflat}')
+        for i in range(k):
+            if not observe.same_list(list(ds.shard(k, i)), lists[i]):
+                raise Violation('shard-vs-split|pipeline', f'{desc} k={k} i={i}')
+    return n
+
+
+@st.composite
+def st_pipeline(draw):
+    node = draw(gen.st_program(gen.Ctx(), gen.PROFILES['indexable'] - {'cache_eager'}, max_stages=4))
+    m = ev(node)
+    if not (m.indexable and m.sized) or m.has_raise or m.iter_taint or m.int_taint:
+        node = next(n for n in progs.walk(node) if n['op'] in progs.LEAVES)
+    return {'ast': node}
 
 
 def run_shard(tier, idx, nshards, rec, known):
@@ -138,4 +192,11 @@ def run_shard(tier, idx, nshards, rec, known):
                 rec.case(shown, nt, cls, size=n)
                 if sizes is not None:
                     rec.extra['shards_checked'] = rec.extra.get('shards_checked', 0) + k
-    return [out]
+    progcheck.setup_process()
+
+    def one(case):
+        n = check_pipeline(case)
+        rec.case({'program': progs.show(case['ast']), 'ast': case['ast'], 'n': n}, n >= 3 and
+                 progs.size(case['ast']) >= 2, ['generated-pipeline'] + ['op:' + o for o in set(progs.ops(case['ast']))],
+                 size=n)
+    return [out, drive(one, st_pipeline(), N_RANDOM[tier], rec, known, seed() * 1000 + idx)]
